@@ -143,3 +143,7 @@ Proof.
   intros. split; [apply gen_resize_noop_eq|]. split; [apply resize_noop_only_equal|].
   split; [apply gen_needs_new_eq | apply gen_args_reuse_eq].
 Qed.
+
+Lemma replacement_is_requested : forall requested dead,
+  replacement_size_is_requested = true /\ replacement_size replacement_size_is_requested requested dead = requested.
+Proof. intros. split; reflexivity. Qed.
